@@ -135,11 +135,14 @@ Fixpoint split_buf (fuel : nat) (p : bytes) : list bytes :=
   | S f => if (length p <=? copyBufSize)%nat then [p]
            else firstn copyBufSize p :: split_buf f (skipn copyBufSize p)
   end.
+(* the non-empty results of the Read calls of writeBodyChunked's loop (a Read returning (0, nil) is skipped there) *)
+Definition nonempty (c : bytes) : bool := match c with [] => false | _ => true end.
 Definition reads_of (s : stream) : list bytes :=
-  match st_kind s with
-  | SKGenWriterTo => match st_data s with [] => [] | d => split_buf (length d) d end   (* one contiguous string *)
-  | _ => flat_map (fun p => split_buf (length p) p) (st_pieces s)
-  end.
+  filter nonempty
+    match st_kind s with
+    | SKGenWriterTo => let d := st_data s in split_buf (length d) d   (* one contiguous string *)
+    | _ => flat_map (fun p => split_buf (length p) p) (st_pieces s)
+    end.
 
 Definition hex_of (n : Z) : bytes := match writeHexInt maxHexIntChars64 n with Some d => d | None => [] end.
 Definition blen (b : bytes) : Z := Z.of_nat (length b).
